@@ -191,8 +191,11 @@ CaHandle(j, kind, type, n, upd) ==
     /\ issued' = IF n = NoNonce THEN issued ELSE issued \cup {n}
     /\ answer' = [kind |-> kind, type |-> type, nonce |-> n]
     /\ phase' = "answered"
-    /\ acctKey' = IF upd.op \in {"create", "rekey"}
-                  THEN (upd.acct :> upd.key) @@ acctKey
+    \* an account URL handed out for a key supersedes every earlier URL of that key (the CA had dropped them, or the client would
+    \* have been given the old one back): from now on the account URL is the new one
+    /\ acctKey' = IF upd.op = "create"
+                  THEN (upd.acct :> upd.key) @@ [a \in {x \in DOMAIN acctKey : acctKey[x] # upd.key} |-> acctKey[a]]
+                  ELSE IF upd.op = "rekey" THEN (upd.acct :> upd.key) @@ acctKey
                   ELSE acctKey
     /\ Keep(<<cell, tries, wire, newest, sentNonces, polls, pollUrl, nreq, retryDue, caller, prev>>)
 
